@@ -38,6 +38,91 @@ def payload_name(fd):
     return "%s.%s" % (fd.payload.__module__.split(".")[-1], fd.payload.__name__)
 
 
+# --------------------------------------------------------------------------
+# every iterable SHAPE a host can hand to yaql unconverted (context variable,
+# convertInputData=False): each must be limited wherever a collection type accepts it
+# --------------------------------------------------------------------------
+class _Counting:
+    def __init__(self, counter, n=None):
+        self.counter, self.n, self.i = counter, n, 0
+
+    def __iter__(self):
+        return self
+
+    def __next__(self):
+        if self.n is not None and self.i >= self.n:
+            raise StopIteration
+        self.counter[0] += 1
+        if self.counter[0] > 500:
+            raise StopIteration
+        self.i += 1
+        return self.i - 1
+
+
+class _ReIterable:
+    """lazy, re-iterable, not sized: __iter__ only (a fresh iterator each time)"""
+    def __init__(self, counter, n=None):
+        self.counter, self.n = counter, n
+
+    def __iter__(self):
+        return _Counting(self.counter, self.n)
+
+
+class _SizedIterable(_ReIterable):
+    """sized but neither Sequence nor Set nor Mapping"""
+    def __len__(self):
+        return self.n
+
+
+def source_shapes():
+    """[(name, factory(counter) -> object)]: endless lazy shapes, then sized ones of PROBE_LIMIT+1 items."""
+    import collections
+
+    def generator(counter):
+        def g():
+            yield from _Counting(counter)
+        return g()
+    n = PROBE_LIMIT + 1
+    return [
+        ("generator", generator),
+        ("iterator object", lambda c: _Counting(c)),
+        ("re-iterable object without __len__ (endless)", lambda c: _ReIterable(c)),
+        ("re-iterable object without __len__ (%d items)" % n, lambda c: _ReIterable(c, n)),
+        ("sized iterable that is no Sequence (%d items)" % n, lambda c: _SizedIterable(c, n)),
+        ("deque (%d items)" % n, lambda c: collections.deque(range(n))),
+        ("range (%d items)" % n, lambda c: range(n)),
+        ("dict values view (%d items)" % n, lambda c: {i: i for i in range(n)}.values()),
+        ("dict keys view (%d items)" % n, lambda c: {i: i for i in range(n)}.keys()),
+    ]
+
+
+def limits_every_shape(vt, fd, ctx, eng):
+    """Does vt.convert limit EVERY source shape that vt.check accepts?  -> (bool, [unlimited shapes], pulls of the generator)"""
+    from yaql.language import exceptions, utils
+    bad, gen_pulls = [], None
+    for name, mk in source_shapes():
+        counter = [0]
+        try:
+            if not vt.check(mk([0]), ctx, eng):
+                continue
+        except Exception:
+            continue
+        ok = False
+        try:
+            it = iter(vt.convert(mk(counter), utils.NO_VALUE, ctx, fd, eng))
+            for _ in range(PROBE_LIMIT + 3):
+                next(it)
+        except exceptions.CollectionTooLargeException:
+            ok = counter[0] <= PROBE_LIMIT + 1
+        except Exception:       # StopIteration included: PROBE_LIMIT+1 items were handed over without refusal
+            ok = False
+        if name == "generator":
+            gen_pulls = counter[0]
+        if not ok:
+            bad.append(name)
+    return not bad, bad, gen_pulls
+
+
 def probe_param(fd, key, p, ctx, eng):
     """-> dict(kind, acc_iter, acc_int, acc_str, acc_none, limiting)"""
     from yaql.language import exceptions, utils, yaqltypes
@@ -59,25 +144,11 @@ def probe_param(fd, key, p, ctx, eng):
             return False
 
     row = {"kind": kind, "acc_iter": chk(gen()), "acc_int": chk(1), "acc_str": chk("a"),
-           "acc_none": chk(None), "limiting": False, "pulls": None}
+           "acc_none": chk(None), "limiting": False, "pulls": None, "unlimited_shapes": []}
     if kind == "PEager" and row["acc_iter"]:
-        pulls = [0]
-
-        def src():
-            for i in itertools.count():
-                pulls[0] += 1
-                yield i
-
-        try:
-            r = vt.convert(src(), utils.NO_VALUE, ctx, fd, eng)
-            it = iter(r)
-            for _ in range(PROBE_LIMIT + 3):
-                next(it)
-        except exceptions.CollectionTooLargeException:
-            row["limiting"] = pulls[0] <= PROBE_LIMIT + 1
-        except Exception:
-            row["limiting"] = False
-        row["pulls"] = pulls[0]
+        # limiting = EVERY source shape the type accepts (generator, iterator object, re-iterable
+        # object, sized non-Sequence containers, views) is limited by convert
+        row["limiting"], row["unlimited_shapes"], row["pulls"] = limits_every_shape(vt, fd, ctx, eng)
     return row
 
 
@@ -190,26 +261,10 @@ def probe_combinator(label, vt):
         except Exception:
             return False
 
-    row = {"label": label, "acc_iter": chk(gen()), "limiting": False, "pulls": None,
+    row = {"label": label, "acc_iter": chk(gen()), "limiting": False, "pulls": None, "unlimited_shapes": [],
            "acc_sized": chk((0,) * (PROBE_LIMIT + 1)), "sized_refused": False, "sized_ok": False, "quota_ok": False}
     if row["acc_iter"]:
-        pulls = [0]
-
-        def src():
-            for i in itertools.count():
-                pulls[0] += 1
-                if pulls[0] > 200:
-                    return
-                yield i
-        try:
-            it = iter(vt.convert(src(), utils.NO_VALUE, ctx, None, eng))
-            for _ in range(PROBE_LIMIT + 3):
-                next(it)
-        except exceptions.CollectionTooLargeException:
-            row["limiting"] = pulls[0] <= PROBE_LIMIT + 1
-        except Exception:
-            pass
-        row["pulls"] = pulls[0]
+        row["limiting"], row["unlimited_shapes"], row["pulls"] = limits_every_shape(vt, None, ctx, eng)
     if row["acc_sized"]:
         try:
             vt.convert((0,) * (PROBE_LIMIT + 1), utils.NO_VALUE, ctx, None, eng)
